@@ -184,6 +184,33 @@ def handle (line : String) : String :=
     | some ((.ok _, .ok _), _) => "err NotImplementedError"
     | some _ => "ctor-error"
     | none => "bad-op"
+  | "inter3" :: rest =>
+    match (do let a ← objP; let b ← objP; let c ← objP; pure (a, b, c) : P _).run rest with
+    | some ((.ok (.obj a), .ok (.obj b), .ok (.obj c)), _) =>
+      let l := match inter a b with
+        | .ok (some ab) => inter ab c
+        | .ok none => .ok none
+        | .error e => .error e
+      let r := match inter b c with
+        | .ok (some bc) => inter a bc
+        | .ok none => .ok none
+        | .error e => .error e
+      showRes l ++ " | " ++ showRes r
+    | some _ => "ctor-error"
+    | none => "bad-op"
+  | "eq" :: rest =>
+    match two.run rest with
+    | some ((.ok (.obj (.flat a)), .ok (.obj (.flat b))), _) =>
+      match a, b with
+      | .point p, .point q => showBool (p == q)
+      | .line l, .line m => showBool (l.eqv m)
+      | .plane l, .plane m => showBool (l.eqv m)
+      | .seg l, .seg m => showBool (l.same m)
+      | .halfline l, .halfline m => showBool (l.p == m.p && V3.parallel l.v m.v && decide (0 < V3.dot l.v m.v))
+      | _, _ => "false"
+    | some ((.ok (.vec a), .ok (.vec b)), _) => showBool (a == b)
+    | some _ => "ctor-error"
+    | none => "bad-op"
   | "mem" :: rest =>
     match two.run rest with
     | some ((.ok (.obj a), .ok (.obj b)), _) =>
